@@ -40,11 +40,14 @@ TEnd   == /\ Ev.e = "end"
    only raises a flag that the run loop reads before its next dispatch, so a handler
    that is running may finish, and when none is running one dispatch that already
    passed the flag check may still start *)
-TPause == /\ Ev.e = "pause_ret" /\ ~paused /\ (StrictPause => running = {})
+(* Pause may be called again while the engine is already paused (two controllers): every
+   return of Pause must find the engine quiescent.  The first Continue ends the paused
+   period (what a second, still outstanding pauser may expect is not fixed by the statement). *)
+TPause == /\ Ev.e = "pause_ret" /\ (StrictPause => running = {})
           /\ paused' = TRUE
           /\ grace' = IF ~StrictPause /\ running = {} THEN 1 ELSE 0
           /\ UNCHANGED <<pend, running, seen>>
-TCont  == /\ Ev.e = "continue" /\ paused /\ paused' = FALSE /\ grace' = 0 /\ UNCHANGED <<pend, running, seen>>
+TCont  == /\ Ev.e = "continue" /\ paused' = FALSE /\ grace' = 0 /\ UNCHANGED <<pend, running, seen>>
 TRet   == /\ Ev.e = "ret" /\ pend = {} /\ running = {} /\ UNCHANGED <<pend, running, paused, grace, seen>>
 TReset == /\ Ev.e = "reset" /\ pend' = {} /\ running' = {} /\ paused' = FALSE /\ grace' = 0 /\ seen' = {}
 TNext == l <= TraceLen /\ l' = l + 1 /\ (TSched \/ TStart \/ TEnd \/ TPause \/ TCont \/ TRet \/ TReset)
